@@ -307,7 +307,7 @@ func main() {
 					continue
 				}
 				args = append(args, &ast.CallExpr{
-					Fun: &ast.SelectorExpr{X: ast.NewIdent("unsafe"), Sel: ast.NewIdent("Offsetof")},
+					Fun:  &ast.SelectorExpr{X: ast.NewIdent("unsafe"), Sel: ast.NewIdent("Offsetof")},
 					Args: []ast.Expr{&ast.SelectorExpr{X: &ast.CompositeLit{Type: ast.NewIdent(named.Obj().Name())}, Sel: ast.NewIdent(fld.Name())}},
 				})
 			}
